@@ -108,7 +108,8 @@ def evaluate(spec, hist, compare_admin=False):
             k = op.get("op")
             g = hist["globals_at"][ti][i]
             ov_at[i] = copy.deepcopy(ov)
-            if k in SKIP_COMPARE and not compare_admin:
+            if k in SKIP_COMPARE and not compare_admin and not (k == "basic_config" and op.get("step") is not None
+                                                                and not op.get("units")):
                 continue
             if k == "retag":
                 continue            # display only: nothing to compare, nothing the solo run needs to know
